@@ -257,6 +257,16 @@ def base_scenarios():
                   {"at": 10, "do": "rx", "r": 2, "ty": "CON", "code": 1, "mid": 77, "tok": "c1", "path": ["h", "1"]}],
            handlers={"1": {"delay": 700, "outcome": "ok"}})
         S[-1]["stall_interface"] = stall
+    # requests whose destination is still being resolved (Context.find_remote_and_interface awaits the transport's
+    # name lookup): they have left the application but have not reached the token manager when shutdown() runs,
+    # and arrive there after it returned
+    mk("resolving-remote", [{"at": 0, "do": "submit", "q": 1, "r": 1, "con": True, "f": 0.5, "resolve": 600},
+                            {"at": 200, "do": "submit", "q": 2, "r": 2, "con": False, "resolve": 600}])
+    mk("resolving-remote-blockwise",
+       [{"at": 0, "do": "submit", "q": 1, "r": 1, "con": True, "code": 3, "payload_len": 3000, "blockwise": True, "f": 0.5,
+         "resolve": 900},
+        {"at": 100, "do": "submit", "q": 2, "r": 1, "con": True, "observe": 0, "f": 0.5, "resolve": 900}],
+       autoreply=[{"match": {"b1more": 1}, "code": 95, "echo_b1": True, "delay": 300, "max": 2}])
     mk(
         "icmp-error-then-more",
         [
